@@ -57,9 +57,10 @@ class Tracker:
         self.gcalls = []
         self.helpers = []
         self.refines = []
+        self.dense = []
 
     def snapshot(self):
-        return {'steps': list(self.steps), 'gcalls': list(self.gcalls), 'helpers': list(self.helpers), 'refines': list(self.refines)}
+        return {'steps': list(self.steps), 'gcalls': list(self.gcalls), 'helpers': list(self.helpers), 'refines': list(self.refines), 'dense': list(self.dense)}
 
 
 def flat_args(t, y, h=None):
@@ -171,22 +172,33 @@ def stubbed(rkmod, tr, real_helpers=(), real_dense=True, real_refine=True, auton
     # ---- dense output: keep the real evaluators unless asked otherwise (they are linear in the opaque K's)
     if not real_dense:
         def q45(Kseg, P, dim_):
+            tr.dense.append(('build45', {'Kseg': Kseg}))
             return ('Q', Kseg)
 
         def e45(y_old, Q_cache, P, x, hseg):
             K = Q_cache[1]
+            tr.dense.append(('eval45', {'y_old': y_old.copy(), 'K': K, 'x': x, 'hseg': hseg}))
             return vec('D45', dim, *([Sym.lift(v) for v in y_old] + [Sym.lift(K[0, 0]), Sym.lift(x), Sym.lift(hseg)]))
         setp('_rk45_build_Q_cache', q45)
         setp('_rk45_eval_dense', e45)
 
+        _n853 = ['f', 't_old', 'y_old', 'f_old', 'y_new', 'f_new', 'hseg', 'Kseg']
+
         def b853(*a, **k):
-            return ('F', k['Kseg'] if 'Kseg' in k else a[7])
+            kw = dict(zip(_n853, a))
+            kw.update(k)
+            tr.dense.append(('build853', {n: kw.get(n) for n in _n853[1:]}))
+            return ('F', kw['Kseg'], kw)
 
         def b853h(*a, **k):
-            return ('F', k['Kseg'] if 'Kseg' in k else a[6])
+            kw = dict(zip(_n853[1:], a))
+            kw.update(k)
+            tr.dense.append(('build853', {n: kw.get(n) for n in _n853[1:]}))
+            return ('F', kw['Kseg'], kw)
 
         def e853(y_old, F_cache, power, x):
             K = F_cache[1]
+            tr.dense.append(('eval853', {'y_old': y_old.copy(), 'K': K, 'x': x, 'cache': F_cache[2]}))
             return vec('D853', dim, *([Sym.lift(v) for v in y_old] + [Sym.lift(K[0, 0]), Sym.lift(x)]))
         setp('_dop853_build_dense_cache', b853)
         setp('_dop853_build_dense_cache_ham', b853h)
